@@ -116,6 +116,11 @@ class Streaming(Problem):
             raise ViolationError("closed-run-held-at-hunk-header", "held back at the next hunk header: %d removed / %d added / "
                                  "%d unchanged lines of the previous hunk" % (pend_m, pend_p, pend_z),
                                  observed=[pend_m, pend_p, pend_z])
+        if k not in ("minus", "plus", "zero") and line.startswith(b"\\ ") and (pend_m or pend_p or pend_z):
+            # `\ No newline at end of file` is a line of the hunk: the input ends inside it, and the run before the
+            # marker is closed
+            raise ViolationError("closed-run-held-at-no-newline-marker", "held back after the `\\ No newline` line: %d removed / "
+                                 "%d added / %d unchanged lines" % (pend_m, pend_p, pend_z), observed=[pend_m, pend_p, pend_z])
         if k not in ("minus", "plus", "zero"):
             # the statement speaks about input that ends inside a hunk, i.e. whose last line is a
             # hunk line; after a header line delta may still hold the just-closed run (painted,
